@@ -40,6 +40,9 @@ LEXEMES = ["A", "b_c", "1", "-2.5", "1.0.0", "true", "null", '"q s"', '""', "$V"
            "→", "->", "⊕", "+", "⧺", "~", "⇌", "vs", "∧", "&", "∨", "|", "§", "#", "@", "<x>", "1e400"]
 
 
+SECTION_NUMBER_SPELLINGS = ["1", "02", "1.10", "2.50", "1e3", "2.", "-0", "007", "1.0", "10", "0.5", "1E2", "3.14159"]
+
+
 def _errs():
     from octave_mcp.core.lexer import LexerError
     from octave_mcp.core.parser import ParserError
@@ -229,6 +232,17 @@ def tool_roundtrips(text: str, lenient: bool, root: str):
         elif b2 != b1 or n.get("canonical_hash") != w.get("canonical_hash") or n.get("diff") != "No changes":
             out.append((classify(b1.decode("utf-8"), "not-idempotent", "write-normalize", b2.decode("utf-8")),
                         f"normalize mode changed a canonical file: diff={n.get('diff')!r} before={b1!r} after={b2!r}"))
+        # ---- lenient normalize of the canonical file: the lenient path's pre-parse repairs have nothing to repair in it
+        if b2 == b1:
+            nl = tools.write(target_path=path, lenient=True)
+            with open(path, "rb") as fh:
+                b3 = fh.read()
+            if nl.get("status") == "success" and (b3 != b1 or nl.get("canonical_hash") != w.get("canonical_hash")):
+                out.append((classify(b1.decode("utf-8"), "not-idempotent", "write-normalize-lenient", b3.decode("utf-8")),
+                            f"normalize mode with lenient=true changed a canonical file: diff={nl.get('diff')!r} before={b1!r} after={b3!r}"))
+            if b3 != b1:
+                with open(path, "wb") as fh:
+                    fh.write(b1)
         # ---- the same canonical text stored with CRLF line endings: after octave_write(normalize) the file must be the
         #      canonical (LF) text whose hash is returned — a file the strict reader accepts
         if b"\r" not in b1:
@@ -416,6 +430,20 @@ def shard_tokens(ctx: Ctx, sh: int, nshards: int, max_len: int, sample: int) -> 
                 run_one(tup, True, True)
             if ln <= 3:  # the same sequence as the content of a list: K::[<seq>]
                 run_one(tup, False, True, True)
+    # section headers whose number is spelled other than Python prints it, with and without a letter suffix, a name, or the id
+    # repeated as the name (longer than the exhaustive bound, so listed): whatever id the reader settles on, the header it
+    # writes must be readable and stable
+    for num in SECTION_NUMBER_SPELLINGS:
+        for suffix in ((), ("b",), ("A",)):
+            for tail in ((), ("A",), (num,) + suffix, ("\n", "A", "::", "1")):
+                for head in (("A",), ("A", "\n")):
+                    i += 1
+                    if i % nshards != sh:
+                        continue
+                    tup = head + ("§", num) + suffix + ("::",) + tail
+                    run_one(tup, False, True)
+                    run_one(tup, True, True)
+                    st.labels["section_header_spellings"] += 2
     if sample:
         rnd = random.Random(ctx.shard_seed(sh, 5))
         for _ in range(sample // nshards):
